@@ -309,7 +309,39 @@ def build(spec, skip=()):
     ocp = Ocp(**stage_ctor_kwargs(B, spec))
     B.ocp = ocp
     populate_stage(B, ocp, spec, skip=skip)
+    B.owner = {spec["name"]: spec["name"]}   # stage name -> name of the stage spec whose declarations it carries
+    for tpl in spec.get("templates", []):
+        from rockit import Stage
+        late = {}
+        for key in ("t0", "T"):
+            h = tpl.get(key)
+            if h is not None and h[0] == "par":
+                late[key] = h
+        if late:
+            tpl["horizon_late"] = late
+        tst = Stage(**stage_ctor_kwargs(B, tpl))
+        populate_stage(B, tst, tpl, skip=skip)
+        B.owner[tpl["name"]] = tpl["name"]
     for sub in spec.get("substages", []):
+        if sub.get("template"):
+            tname = sub["template"]
+            kw = {}
+            for key in ("t0", "T"):
+                if sub.get(key) is not None:
+                    kw[key] = horizon_arg(B, sub[key])
+            st = ocp.stage(B.stages[tname], **kw)
+            B.stages[sub["name"]] = st
+            B.stagespec[sub["name"]] = sub
+            B.owner[sub["name"]] = tname
+            B.stage = st
+            for c in sub.get("constraints", []):
+                apply_constraint(B, st, c)
+            for t in sub.get("objective", []):
+                st.add_objective(E.to_ca(t, B, st))
+            for d in sub.get("param_values", []):
+                apply_value(B, st, d[0], d[1])
+            continue
+        B.owner[sub["name"]] = sub["name"]
         late = {}
         for key in ("t0", "T"):
             h = sub.get(key)
